@@ -12,7 +12,7 @@ from vlib import cN, clist, cpair, log
 PID = "C10"
 PROPS = "C10_Props.v"
 TARGETS = ["C10_Props.vo", "C10_Check.vo", "C10_CacheProps.vo"]
-HARNESS = ["control/common_test.go", "control/c10_test.go"]
+HARNESS = ["control/common_test.go", "control/c10_test.go", "control/c10ctl_test.go"]
 
 BITMAPS = [0, 1, 2, 3, 5, 6, 1 << 31, 1 << 32, (1 << 31) | 1, 1 << 1023, (1 << 1023) | (1 << 32), 0xffffffff, 1 << 33]
 ADDRS = ["1.2.3.4", "1.2.3.5", "10.0.0.1", "255.255.255.255", "::1", "2001:db8::1", "2001:db8::2", "::ffff:1.2.3.4",
@@ -180,6 +180,123 @@ def shrink(sc, binary, case, want_code):
     return {"ops": ops}
 
 
+# ------------------------------------------------------------------------------------------------
+# second stream: DNS controller with the production callbacks
+# ------------------------------------------------------------------------------------------------
+HOSTS = ["a.com", "B.com", "b.com", "c.net.", "x.y.z"]
+
+
+def gen_ctl_case(rng):
+    hosts = rng.sample(HOSTS, rng.randint(1, 4))
+    bitmaps = {}
+    for h in HOSTS:
+        fq = (h if h.endswith(".") else h + ".").lower()
+        bitmaps[fq] = "%x" % rng.choice(BITMAPS)
+    addrs = rng.sample(ADDRS, rng.randint(1, 5))
+    ops = []
+    for _ in range(rng.randint(1, 16)):
+        r = rng.random()
+        h = rng.choice(hosts)
+        qt = rng.choice([1, 28, 1])
+        sc = rng.choice(["", "", "asis", "u1"])
+        if r < 0.6:
+            ips = [a for a in (rng.choice(addrs) for _ in range(rng.choice([0, 1, 2, 2, 3])))]
+            ops.append({"kind": "insert", "host": h, "qtype": qt, "scope": sc, "ips": ips, "ttl": rng.choice([1, 2, 60, 300])})
+        elif r < 0.75:
+            ops.append({"kind": "remove", "host": h, "qtype": qt, "scope": sc})
+        elif r < 0.85:
+            ops.append({"kind": "family", "host": h, "qtype": qt})
+        else:
+            ops.append({"kind": "janitor", "at_sec": rng.choice([0, 1, 3, 100, 1000])})
+    return {"bitmaps": bitmaps, "max_cache_size": rng.choice([0, 0, 1, 2, 3]), "ops": ops}
+
+
+def run_ctl_batch(sc, binary, cases, tag):
+    inp = sc.path("c10ctl_%s.in" % tag)
+    outp = sc.path("c10ctl_%s.out" % tag)
+    with open(inp, "w") as f:
+        for c in cases:
+            f.write(json.dumps(c) + "\n")
+    rc, so, se, dt = vlib.run_go_harness(binary, "TestVerifC10Ctl", inp, outp)
+    if rc != 0:
+        return None, "controller harness failed rc=%d: %s %s" % (rc, so[-2000:], se[-2000:])
+    results = [json.loads(l) for l in open(outp)]
+    pool = vlib.NumPool()
+    cN = pool.n
+    coq_cases = []
+    errors = {}
+    idx = []
+    for i, (c, r) in enumerate(zip(cases, results)):
+        if r.get("panic"):
+            errors[i] = [(0, 9, "panic: " + r["panic"])]
+            continue
+        tab = {k: ip_int(s) for s, k in r["keys"].items()}
+        univ = set(ip_int(a) for a in ADDRS)
+        steps = []
+        bad = None
+        for si, st in enumerate(r["steps"]):
+            if st.get("err"):
+                bad = (si, 9, "error: " + st["err"])
+                break
+            live = []
+            for oi, l in enumerate(st["live"]):
+                ans = [(True, ip_int(a)) for a in l["a"]] + [(False, ip_int(a)) for a in l["aaaa"]]
+                univ.update(a for _, a in ans)
+                live.append(cpair(cN(oi + 1), "(Build_cache_entry %s %s)" % (cN(int(l["bitmap"], 16)), clist([cpair(vlib.cbool(v4), cN(a)) for v4, a in ans]))))
+            sh = []
+            for k, v in st["shadow"]:
+                if k not in tab:
+                    bad = (si, 2, "kernel map holds a key for no address ever inserted: " + k)
+                    break
+                sh.append(cpair(cN(tab[k]), cN(int(v, 16))))
+            if bad:
+                break
+            steps.append(cpair(clist(live), clist(sh)))
+        if bad:
+            errors[i] = [bad]
+            continue
+        idx.append(i)
+        coq_cases.append(cpair(clist(steps), clist([cN(x) for x in sorted(univ)])))
+    text = ("From Coq Require Import List NArith Bool.\nFrom Dae Require Import C10_Spec C10_Model C10_Cache C10_Check.\n"
+            "Import ListNotations.\nOpen Scope N_scope.\n" + pool.header() +
+            "Definition cases : list (list (list (N * cache_entry) * list (N * N)) * list N) := [\n" + ";\n".join(coq_cases) + "\n].\n"
+            "Definition R := Eval vm_compute in map check_ctl_case cases.\nPrint R.\n")
+    ok, outtxt = vlib.coq_eval("C10_ctl_%s" % tag, text)
+    if not ok:
+        return None, "coq evaluation failed: " + outtxt[-3000:]
+    m = re.search(r"R\s*=\s*(.*?)\n\s*:\s*list", outtxt, re.S)
+    body = re.sub(r"\s+", "", m.group(1))
+    per = re.findall(r"\[([\d;]*)\]", body[1:-1])
+    if len(per) != len(idx):
+        return None, "cannot parse coq output (%d vs %d): %s" % (len(per), len(idx), body[:300])
+    for i, p in zip(idx, per):
+        errors[i] = [(int(x), 2, "") for x in p.split(";") if x]
+    return errors, None
+
+
+def shrink_ctl(sc, binary, case):
+    def fails(c):
+        errs, err = run_ctl_batch(sc, binary, [c], "shrink")
+        return err is None and bool(errs.get(0))
+    ops = list(case["ops"])
+    for n in range(1, len(ops) + 1):
+        if fails(dict(case, ops=ops[:n])):
+            ops = ops[:n]
+            break
+    changed = True
+    rounds = 0
+    while changed and rounds < 40:
+        changed = False
+        for i in range(len(ops) - 1):
+            rounds += 1
+            cand = ops[:i] + ops[i + 1:]
+            if cand and fails(dict(case, ops=cand)):
+                ops = cand
+                changed = True
+                break
+    return dict(case, ops=ops)
+
+
 def main(argv):
     args = vlib.main_args(argv)
     out = vlib.Outcome(PID, args.tier, args.seed)
@@ -270,6 +387,25 @@ def main(argv):
             what["searched"] = "%d histories (widened=%s) with no impl<>spec disagreement" % (n_eval, widened)
             out.violation("tie", what, "proof obligation or model correspondence no longer checks; no failing input found",
                           no_failing_input=True)
+        # ---- second stream: controller with production callbacks ----
+        n_ctl = 150 if args.tier == "quick" else 3000
+        ctl_cases = [gen_ctl_case(rng) for _ in range(n_ctl)]
+        ctl_fail = []
+        ctl_err = None
+        for s in range(0, len(ctl_cases), 500):
+            cerrs, cerr = run_ctl_batch(sc, binary, ctl_cases[s:s + 500], "c%d" % s)
+            if cerr:
+                ctl_err = cerr
+                break
+            ctl_fail += [(s + i, e) for i, e in sorted(cerrs.items()) if e]
+        if ctl_err:
+            out.violation("ctl_tie", {"correspondence": ctl_err}, "controller-level correspondence could not be evaluated", no_failing_input=True)
+        elif ctl_fail:
+            i, e = ctl_fail[0]
+            small = shrink_ctl(sc, binary, ctl_cases[i]) if not any(c == 9 for (_, c, _) in e) else ctl_cases[i]
+            out.violation("ctl_impl_vs_spec", {"case": small, "errors": e, "how": "feed case to TestVerifC10Ctl: after the failing step the kernel shadow map differs from the OR of the bitmaps of the live cache entries"},
+                          "controller-level: kernel table differs from the live DNS cache after a cache operation (%d failing histories)" % len(ctl_fail))
+        cov_ctl = {"controller_histories": len(ctl_cases), "controller_failures": len(ctl_fail)}
         distinct = len(set(sigs))
         nontrivial = len(set(s for s in sigs if int(s[0]) > 0 and int(s[1]) > 0))
         cov.update(evaluations=n_eval, distinct_nontrivial=nontrivial,
@@ -279,7 +415,7 @@ def main(argv):
                    traces_validated_against_impl=n_eval - len(model_fail),
                    comparisons="per step: impl batches = model batches; impl shadow map = spec table; model shadow = spec table; final tracker dump = model state",
                    samples=[cases[len(corpus)] if len(cases) > len(corpus) else cases[0]],
-                   widened_search=widened)
+                   widened_search=widened, **cov_ctl)
     return out.finish()
 
 
